@@ -3,6 +3,7 @@ import signal
 
 from simkit.core import Result, h64
 from simkit.kernel import Sim, current_task
+from simkit import preempt
 from worlds import master, worker as W
 
 ID = "C10"
@@ -57,7 +58,7 @@ def make_case(index, rng, tier):
     return {"family": fam, "kind": kind, "workers": rng.randrange(1, 4), "hups": hups, "clients": clients,
             "fine": rng.choice([0, 0, 2, 3]),
             "graceful_timeout": rng.choice([2, 3, 4]), "threads": rng.randrange(1, 3),
-            "buggify": {"fork_child_first": rng.randrange(2) == 0, "spurious_select": rng.randrange(3) == 0,
+            "buggify": {"pyticks": rng.randrange(3) == 0, "fork_child_first": rng.randrange(2) == 0, "spurious_select": rng.randrange(3) == 0,
                         "random_spawn_delay": rng.randrange(2) == 0, "short_recv": rng.randrange(4) == 0}}
 
 
@@ -65,6 +66,9 @@ def run(case, choices):
     res = Result()
     sim = Sim(choices, max_steps=200000, max_time=200.0)
     sim.buggify = dict(case["buggify"])
+    if case["buggify"].get("pyticks"):
+        preempt.enable()
+        sim.py_ticks = True          # eval-breaker points inside gunicorn's Python code are delivery / pre-emption points too
     sim.fine_interleave = case.get("fine", 0)
     gt = case["graceful_timeout"]
     fam = case["family"]
